@@ -217,8 +217,19 @@ fn walk(v: &Value, path: &mut Path, f: &mut dyn FnMut(&Path, &Value)) {
     }
 }
 
+/// Representations that could not be taken apart (a field could not be located): the inputs that would
+/// have been derived from them are skipped, and the evidence says so.
+pub static UNLEARNABLE: std::sync::Mutex<Vec<String>> = std::sync::Mutex::new(Vec::new());
+
+fn unlearnable(msg: String) {
+    let mut u = UNLEARNABLE.lock().unwrap();
+    if !u.contains(&msg) && u.len() < 50 {
+        u.push(msg);
+    }
+}
+
 /// The one place where the number `marker` occurs.
-pub fn find_num(v: &Value, marker: i64, what: &str) -> Path {
+pub fn find_num(v: &Value, marker: i64, what: &str) -> Option<Path> {
     let mut found = vec![];
     walk(v, &mut vec![], &mut |p, x| {
         if x.as_i64() == Some(marker) {
@@ -226,14 +237,14 @@ pub fn find_num(v: &Value, marker: i64, what: &str) -> Path {
         }
     });
     if found.len() != 1 {
-        eprintln!("serde probe: cannot locate field `{what}` in the natural representation {v} (marker {marker} occurs {} times)", found.len());
-        std::process::exit(2);
+        unlearnable(format!("field `{what}` in {v} (marker {marker} occurs {} times)", found.len()));
+        return None;
     }
-    found.remove(0)
+    Some(found.remove(0))
 }
 
 /// The one place where two representations differ (leaf level).
-pub fn diff_path(a: &Value, b: &Value, what: &str) -> Path {
+pub fn diff_path(a: &Value, b: &Value, what: &str) -> Option<Path> {
     let mut la = vec![];
     walk(a, &mut vec![], &mut |p, x| {
         if !x.is_array() && !x.is_object() {
@@ -247,10 +258,10 @@ pub fn diff_path(a: &Value, b: &Value, what: &str) -> Path {
         }
     }
     if diffs.len() != 1 {
-        eprintln!("serde probe: cannot locate field `{what}`: {a} vs {b} differ in {} places", diffs.len());
-        std::process::exit(2);
+        unlearnable(format!("field `{what}`: {a} vs {b} differ in {} places", diffs.len()));
+        return None;
     }
-    diffs.remove(0)
+    Some(diffs.remove(0))
 }
 
 pub fn get_path<'a>(v: &'a Value, p: &[Step]) -> Option<&'a Value> {
